@@ -16,6 +16,7 @@ RULE = ("G-sim traces (causally consistent, well-formed, K1-free; 1-3 host threa
 ASSUMPTIONS = ["regime re-derived from raw events (hv/wf.py); windows without any analysed event are skipped (library asserts)",
                "reference hv/ref/cp.py + hv/ref/load.py (trimming) trusted",
                "event-sync / stream-wait edges are never produced in this environment (pandas copy-on-write drops in-place fillna, DESIGN O1); their clause is checked whenever such an edge appears"]
+FLOAT_KEYS = ["files"]          # fractional-time-unit workload class (hv/shard.py)
 PLAN = {"quick": {"shards": 16, "cases": 480, "timeout": 900}, "thorough": {"shards": 16, "cases": 5000, "timeout": 3400}}
 FLOORS = {
     "quick": {"distinct_nontrivial": 100, "graphs": 400, "edges_checked": 20000, "add_edge_helper.log": 20000,
